@@ -198,6 +198,60 @@ impl SubscriptionMatcher {
         }
     }
 
+    /// True if the matcher selects this record but holds no start position for its
+    /// partition / stream yet, i.e. the subscription began "from latest" there and has not
+    /// delivered anything for it so far.
+    fn starts_at_latest(&self, record: &EventRecord) -> bool {
+        fn sequences_unset(from_sequences: &FromSequences, partition_id: PartitionId) -> bool {
+            match from_sequences {
+                FromSequences::Latest => true,
+                FromSequences::Partitions {
+                    from_sequences,
+                    fallback,
+                } => !from_sequences.contains_key(&partition_id) && fallback.is_none(),
+                FromSequences::AllPartitions(_) => false,
+            }
+        }
+
+        match self {
+            SubscriptionMatcher::AllPartitions { from_sequences } => {
+                sequences_unset(from_sequences, record.partition_id)
+            }
+            SubscriptionMatcher::Partition {
+                partition_id,
+                from_sequence,
+            } => partition_id == &record.partition_id && from_sequence.is_none(),
+            SubscriptionMatcher::Partitions {
+                partition_ids,
+                from_sequences,
+            } => {
+                partition_ids.contains(&record.partition_id)
+                    && sequences_unset(from_sequences, record.partition_id)
+            }
+            SubscriptionMatcher::Stream {
+                partition_key,
+                stream_id,
+                from_version,
+            } => {
+                partition_key == &record.partition_key
+                    && stream_id == &record.stream_id
+                    && from_version.is_none()
+            }
+            SubscriptionMatcher::Streams {
+                stream_ids,
+                from_versions,
+            } => {
+                let key = (record.partition_key, record.stream_id.clone());
+                stream_ids.contains(&key)
+                    && match from_versions {
+                        FromVersions::Latest => true,
+                        FromVersions::Streams(streams) => !streams.contains_key(&key),
+                        FromVersions::AllStreams(_) => false,
+                    }
+            }
+        }
+    }
+
     fn update_state(
         &mut self,
         partition_id: PartitionId,
@@ -400,6 +454,16 @@ impl Subscription {
     }
 
     async fn run(&mut self, mut matcher: SubscriptionMatcher) -> Result<(), SubscriptionError> {
+        // "From latest" means from the confirmed position at the time of subscribing. The
+        // confirmation actor re-broadcasts older confirmed events (it starts at sequence 0 and
+        // does not advance while nobody listens), so remember where each partition stood and
+        // drop live records below that for which the matcher has no position of its own.
+        let latest_floor: HashMap<PartitionId, u64> = self
+            .watermarks
+            .iter()
+            .map(|(partition_id, watermark)| (*partition_id, watermark.get()))
+            .collect();
+
         self.read_history(&mut matcher).await?;
         #[cfg(feature = "verif-hooks")]
         crate::verif::pause_async("sub:history-done", self.subscription_id.as_u128()).await;
@@ -408,6 +472,14 @@ impl Subscription {
             match self.broadcast_rx.recv().await {
                 Ok(record) => {
                     if matcher.has_seen(&record) {
+                        continue;
+                    }
+
+                    if matcher.starts_at_latest(&record)
+                        && latest_floor
+                            .get(&record.partition_id)
+                            .is_some_and(|floor| record.partition_sequence < *floor)
+                    {
                         continue;
                     }
 
